@@ -72,3 +72,16 @@ REG.contract(
     raises={"ValueError": ("((not is_none(position)) and %s != 2) or (is_none(position) and (is_none(col_name) or "
                            "is_none(row_idx)))" % SEQLEN.format("position"), "prop")},
     prop_clauses=["raises-only:ValueError", "refused-before-cut:ValueError"])
+
+# ---- write_rows past its refusal prefix: ONE block write (what h5py refuses it refuses as a whole: no earlier row of a refused call is
+#      written - C12) that addresses exactly the row indices given, in the order given (C16) ---------------------------------------------
+REG.contract(
+    "nixio.data_frame.DataFrame.write_rows#addr", props=["C16", "C12"],
+    params=dict(self=Obj("DataFrame"), rows=SeqOf(SeqOf(Dyn)), index=SeqOf(Int)),
+    requires=DF_OK + ["len(rows) > 0", "len(rows) == len(index)", "len(index) > 1",
+                      "all(index[j] <= %s - 1 for j in range(len(index)))" % NROWS],
+    modifies=["data"], loops={0: dict(var="k", cells=dict(cr_list=Dyn), inv=["len(cr_list) == k"])},
+    ensures=[("rows.addr", "n_calls('_write_data') == 1 and seq_eq(as_intseq(arg_of('_write_data', 'slc')), index)", "prop")],
+    # (whether rows[0] counts as nested is an uninterpreted isinstance test here: a TypeError exit stays possible and is not claimed)
+    unexpected_ok=["TypeError"],
+    prop_clauses=["rows.addr"])
